@@ -214,8 +214,8 @@ def angle_vec(rng, twod, kind):
 
 def make(e, rng, cname, mode):
     """A transform of class cname whose non-zero natural parameters lie in the class's own index set."""
-    t = e.cls[cname](radius=int(rng.choice([100, 64, 25])))
-    inds = set(t.param_inds)
+    radius = int(rng.choice([100, 64, 25]))
+    inds = set(e.cls[cname].param_inds)
     twod = cname.endswith("2D")
     v = np.zeros(12)
     if mode == "quarter":
@@ -245,10 +245,28 @@ def make(e, rng, cname, mode):
     for i in range(12):
         if i not in keep:
             v[i] = 0.0
-    t._vec12[:] = v
+    t = e.cls[cname](v, radius=radius)     # public constructor: 12 natural parameters
     if rng.random() < 0.35:
-        t._direct = False      # a reflected transform (as produced by from_matrix44 on det < 0)
+        reflect(t)
     return t
+
+
+def reflect(t):
+    """Turn a never-used transform into its reflected twin (the state from_matrix44 produces for det < 0).
+    Only applied to objects that have not been used yet."""
+    t._direct = False
+
+
+def ref_matrix(e, t):
+    """The matrix the natural parameters of `t` (public getters translation / rotation / scaling /
+    pre_rotation, is_direct) denote, rebuilt on a FRESH object of the same class: what as_affine must return
+    whatever happened to `t` before."""
+    v = np.concatenate([np.asarray(t.translation, dtype=float), np.asarray(t.rotation, dtype=float),
+                        np.log(np.asarray(t.scaling, dtype=float)), np.asarray(t.pre_rotation, dtype=float)])
+    f = type(t)(v)
+    if not t.is_direct:
+        reflect(f)
+    return f.as_affine()
 
 
 def pts(rng, n=4):
@@ -651,12 +669,11 @@ def sec_param(ck, e, T, rng):
         for i in range(per):
             radius = [64, 100, 16, 1, 100][i % 5]
             exact = radius != 100
-            t = e.cls[cname](radius=radius)
-            npar = len(t.param_inds)
+            npar = len(e.cls[cname].param_inds)
             v0 = np.round(rng.uniform(-4, 4, 12) * 16) / 16
             if cname.startswith("Similarity"):
                 v0[7] = v0[8] = v0[6]
-            t._vec12[:] = v0
+            t = e.cls[cname](v0, radius=radius)
             p = np.round(rng.uniform(-8, 8, npar) * 8) / 8
             pre = np.array(t.precond, dtype=float)
             ck.count(("param", cname, radius, tuple(p), tuple(v0)), bucket="param:radius%d" % radius)
@@ -667,11 +684,16 @@ def sec_param(ck, e, T, rng):
             t.param = t.param
             if not (close(t._vec12, v0, 0 if exact else 1e-12) and close(t.as_affine(), A0, 0 if exact else 1e-12)):
                 ck.fail("param/get-then-set-changes-transform", "%s: t.param = t.param changed the transform" % cname, replay)
-            t._vec12[:] = v0
-            # assign then read
+            # assign then read, on the SAME (already used) object
+            v0 = np.array(t._vec12, dtype=float)
             t.param = p
             v1 = np.array(t._vec12, dtype=float)
             q = np.array(t.param, dtype=float)
+            A1 = t.as_affine()
+            if not close(A1, e.cls[cname](v1, radius=radius).as_affine(), 0):
+                ck.fail("state/matrix-not-that-of-current-parameters/after-param-set",
+                        "%s: after use and `t.param = p`, t.as_affine() is not the matrix of t's current parameters" % cname,
+                        dict(replay, sequence=["as_affine()", "param = param", "param = p", "as_affine()"]))
             if not close(q, p, 0 if exact else 1e-12):
                 ck.fail("param/set-then-get", "%s(radius=%d): param read back %s after assigning %s" % (cname, radius, q.tolist(), p.tolist()), replay)
             if cname.endswith("2D"):
@@ -692,6 +714,153 @@ def sec_param(ck, e, T, rng):
                   "param/model-vs-impl", replay, exact=exact)
             T.add("precond_agrees %s %s" % (cq(1.0 / radius), cvecq(pre)), "param/precond-model-vs-impl", replay)
     ck.section("param", cases=n)
+
+
+def conformant_values(rng, cname, what):
+    """Values for the public setters that stay inside the class's own parameter set."""
+    twod = cname.endswith("2D")
+    if what == "translation":
+        v = np.round(rng.uniform(-30, 30, 3), 3)
+        if twod:
+            v[2] = 0.0
+        return v
+    if what in ("rotation", "pre_rotation"):
+        return angle_vec(rng, twod, str(rng.choice(["any", "any", "nearpi", "near0"])))
+    if what == "scaling":
+        if cname.startswith("Similarity"):
+            return np.full(3, float(np.exp(rng.uniform(-0.7, 0.7))))
+        v = np.exp(rng.uniform(-0.7, 0.7, 3))
+        if twod:
+            v[2] = 1.0
+        return v
+    raise ValueError(what)
+
+
+def sec_stateful(ck, e, T, rng):
+    """Sequences of operations on ONE object: uses (apply, as_affine, compose, inv, copy, ChainTransform.apply)
+    interleaved with updates (param, param through ChainTransform, the four attribute setters, from_matrix44).
+    After every step: (a) as_affine / apply are those of a fresh object carrying the same natural parameters;
+    (b) a use did not change the object; (c) a fresh object given the same `param` maps points identically while
+    the state is inside the class's parameter set; (d) the model evaluated on the current state agrees."""
+    from nipy.algorithms.registration.chain_transform import ChainTransform
+    nseq = ck.n(4, 30)
+    length = ck.n(9, 14)
+    steps = 0
+    for cname in CLASSES:
+        klass = e.cls[cname]
+        npar = len(klass.param_inds)
+        setters = ["translation", "rotation"]
+        if not cname.startswith("Rigid"):
+            setters.append("scaling")
+        if cname.startswith("Affine"):
+            setters.append("pre_rotation")
+        for sq in range(nseq):
+            radius = int(rng.choice([100, 64]))
+            t = klass(radius=radius)
+            pre = make(e, rng, str(rng.choice(CLASSES)), "any")
+            post = make(e, rng, str(rng.choice(CLASSES)), "any")
+            ct = ChainTransform(t, pre=pre, post=post)
+            conform = True
+            hist = []
+            x = pts(rng)
+            for st in range(length):
+                kinds = ["use-apply", "use-as_affine", "use-compose", "use-inv", "use-copy", "use-chain",
+                         "set-param", "set-param", "set-param-roundtrip", "set-chain-param", "set-" + str(rng.choice(setters)),
+                         "from_matrix44"]
+                op = str(rng.choice(kinds)) if st > 0 else "use-apply"
+                steps += 1
+                ck.count(("stateful", cname, sq, st, op), bucket="stateful:" + op.split("-")[0])
+                before_v = np.array(t._vec12, dtype=float)
+                before_d = bool(t.is_direct)
+                detail = None
+                begin(e)
+                try:
+                    if op == "use-apply":
+                        t.apply(x)
+                    elif op == "use-as_affine":
+                        t.as_affine()
+                    elif op == "use-compose":
+                        o = make(e, rng, str(rng.choice(CLASSES)), "any")
+                        (t.compose(o) if rng.random() < 0.5 else o.compose(t))
+                    elif op == "use-inv":
+                        t.inv()
+                    elif op == "use-copy":
+                        t.copy().param = np.round(rng.uniform(-8, 8, npar), 2)      # changing the copy must not touch t
+                    elif op == "use-chain":
+                        got = ct.apply(x)
+                        want = post.apply(t.apply(pre.apply(x)))
+                        dev = m2v_dev(e)
+                        if not close(got, want):
+                            attribute(ck, e, 2 * dev, maxerr(got, want), max(1.0, float(np.max(np.abs(want))), float(np.max(np.abs(t.apply(pre.apply(x)))))),
+                                      "state/chain-apply-after-updates", "ChainTransform.apply differs from post(optimizable(pre(x))) after parameter updates",
+                                      {"class": cname, "sequence": hist + [op], "points": x.tolist()})
+                    elif op == "set-param":
+                        detail = (np.round(rng.uniform(-8, 8, npar) * 8) / 8).tolist()
+                        t.param = np.array(detail)
+                    elif op == "set-param-roundtrip":
+                        t.param = t.param
+                    elif op == "set-chain-param":
+                        detail = (np.round(rng.uniform(-8, 8, npar) * 8) / 8).tolist()
+                        ct.param = np.array(detail)
+                    elif op.startswith("set-"):
+                        what = op[4:]
+                        val = conformant_values(rng, cname, what)
+                        detail = val.tolist()
+                        setattr(t, what, val)
+                    elif op == "from_matrix44":
+                        M = np.eye(4)
+                        M[:3, :3] = rand_int_lin(rng, cname, 1 if rng.random() < 0.6 else -1)
+                        M[:3, 3] = rng.integers(-9, 10, 3)
+                        if cname.endswith("2D"):
+                            conform = False          # a general matrix leaves the in-plane parameter set
+                        detail = M.tolist()
+                        t.from_matrix44(M)
+                except Exception as ex:  # noqa
+                    ck.fail("state/raises/" + op, "%s: %s raised %s: %s after %s" % (cname, op, type(ex).__name__, ex, hist),
+                            {"class": cname, "sequence": hist + [[op, detail]]})
+                    break
+                hist.append([op, detail])
+                replay = {"class": cname, "radius": radius, "sequence": hist, "vec12_now": np.asarray(t._vec12).tolist(),
+                          "direct_now": bool(t.is_direct), "points": x.tolist()}
+                tag = op.split("-")[0] if op != "from_matrix44" else "from_matrix44"
+                # (b) uses leave the object alone
+                if op.startswith("use-") and not (np.array_equal(before_v, t._vec12) and before_d == bool(t.is_direct)):
+                    ck.fail("state/use-changes-object/" + op, "%s: %s changed the transform it was called on" % (cname, op), replay)
+                # (a) matrix and point mapping are those of the current natural parameters
+                A = t.as_affine()
+                Aref = ref_matrix(e, t)
+                scale = max(1.0, float(np.max(np.abs(Aref))))
+                if not close(A, Aref, 1e-12):
+                    ck.fail("state/matrix-not-that-of-current-parameters/after-%s" % ("param-set" if "param" in op else tag),
+                            "%s: after %s, as_affine() differs from the matrix of a fresh %s with the same translation/rotation/scaling/"
+                            "pre_rotation by %g" % (cname, op, cname, maxerr(A, Aref)), replay)
+                elif not close(t.apply(x), x @ Aref[:3, :3].T + Aref[:3, 3], 1e-12):
+                    ck.fail("state/apply-not-that-of-current-parameters/after-%s" % ("param-set" if "param" in op else tag),
+                            "%s: after %s, apply() differs from the mapping of its current parameters" % (cname, op), replay)
+                # assigned parameters can be read back
+                if op in ("set-param", "set-chain-param") and not close(t.param, detail, 1e-12):
+                    ck.fail("state/param-readback", "%s: param reads %s after assigning %s" % (cname, np.asarray(t.param).tolist(), detail), replay)
+                if op == "set-chain-param" and not np.array_equal(ct.param, t.param):
+                    ck.fail("state/chain-param", "ChainTransform.param differs from the optimizable transform's", replay)
+                # (c) the parameter vector determines the mapping
+                if conform:
+                    u = klass(radius=radius)
+                    u.param = t.param
+                    if not t.is_direct:
+                        reflect(u)
+                    if not close(u.as_affine(), A, 1e-9):
+                        ck.fail("state/same-param-different-mapping", "%s: a fresh transform given t.param maps points differently from t "
+                                "(max matrix difference %g)" % (cname, maxerr(u.as_affine(), A)), replay)
+                # (d) model on the current state (as_affine is a function of the state in the model)
+                if not op.startswith("use-") or st == 0:
+                    vw = view(e, t, False)
+                    T.add("xf_agrees %s (Some %s) %s %s %s" % (cq(EPS * frac(scale)), cxf(vw), cstr(cname), cbool(bool(t.is_direct)), cmatq(A)),
+                          "state/model-vs-impl", replay, exact=False)
+                if op == "from_matrix44":
+                    if not close(A, np.array(detail), 1e-9):
+                        attribute(ck, e, m2v_dev(e), maxerr(A, np.array(detail)), scale, "state/from_matrix44-on-used-object",
+                                  "%s: from_matrix44 on an already used object does not describe the new matrix" % cname, replay)
+    ck.section("stateful", sequences=nseq * len(CLASSES), steps=steps)
 
 
 def sec_chain(ck, e, T, rng):
@@ -787,6 +956,95 @@ def sec_chain(ck, e, T, rng):
     ck.section("chain", chain_transform_cases=n, compose_chains=L)
 
 
+def sec_pool(ck, e, rng):
+    """Multi-step composition sequences with object re-use: a pool of transforms (plain callables wrapped in
+    Transform, the six affine classes, PolyAffine, and every composition built so far) grows by
+    `pool[i].compose(pool[j])`; each member carries an independent reference function (pure Python closures over
+    matrices / raw callables, never over Transform objects).  After EVERY step every member of the pool must still
+    map points as its reference: a composition equals the sequential application, and composing never changes
+    its operands or earlier results."""
+    from nipy.algorithms.registration.transform import Transform
+    from nipy.algorithms.registration.polyaffine import PolyAffine
+    from nibabel.affines import apply_affine
+    nseq = ck.n(8, 60)
+    nsteps = ck.n(7, 12)
+    total = 0
+    for sq in range(nseq):
+        x = pts(rng, 5)
+        pool = []        # (object, reference function, description)
+
+        def add_callable():
+            k = int(rng.integers(0, 3))
+            c = float(np.round(rng.uniform(0.5, 2.0), 3))
+            fn = [lambda q, c=c: np.asarray(q) * c + 1.0, lambda q, c=c: np.asarray(q) ** 3 * c * 1e-2,
+                  lambda q, c=c: np.asarray(q)[:, ::-1] - c][k]
+            pool.append((Transform(fn), fn, "callable%d(%g)" % (k, c)))
+
+        def add_affine():
+            nm = str(rng.choice(CLASSES))
+            a = make(e, rng, nm, "any")
+            M = a.as_affine().copy()
+            pool.append((a, lambda q, M=M: apply_affine(M, q), nm))
+
+        def add_poly():
+            nc = int(rng.integers(1, 3))
+            centers = rng.uniform(-10, 10, (nc, 3))
+            mats = np.array([make(e, rng, "Affine", "any").as_affine() for _ in range(nc)])
+            sigma = float(rng.uniform(3, 10))
+            P = PolyAffine(centers.copy(), mats.copy(), sigma)
+            twin = PolyAffine(centers.copy(), mats.copy(), sigma)       # never used as an operand
+            pool.append((P, lambda q, twin=twin: twin.apply(q), "PolyAffine(%d)" % nc))
+        add_callable()
+        add_callable()
+        add_affine()
+        add_affine()
+        if sq % 2 == 0:
+            add_poly()
+        if sq % 3 == 0:
+            add_callable()
+        base = [ref(x) for _, ref, _ in pool]
+        log = []
+        devsum = 0.0
+        for st in range(nsteps):
+            i, j = int(rng.integers(0, len(pool))), int(rng.integers(0, len(pool)))
+            # prefer re-using results of earlier compositions as the RIGHT operand, and re-using them again later
+            if st >= 2 and rng.random() < 0.6:
+                j = int(rng.integers(max(0, len(pool) - 3), len(pool)))
+            (a, ra, da), (b, rb, db) = pool[i], pool[j]
+            total += 1
+            ck.count(("pool", sq, st, da, db), bucket="pool:" + ("generic" if ("callable" in da + db or "o" in (da + db).split()) else "affine"))
+            log.append("pool[%d] = pool[%d].compose(pool[%d])   # %s o %s" % (len(pool), i, j, da, db))
+            begin(e)
+            try:
+                c = a.compose(b)
+            except Exception as ex:  # noqa
+                ck.fail("pool/compose-raises", "compose raised %s: %s in a multi-step sequence" % (type(ex).__name__, ex),
+                        {"initial": [d for _, _, d in pool[:len(base)]], "steps": log})
+                break
+            devsum += m2v_dev(e)
+            pool.append((c, lambda q, ra=ra, rb=rb: ra(rb(q)), "(%s o %s)" % (da, db)))
+            bad = None
+            for k, (obj, ref, d) in enumerate(pool):
+                want = ref(x)
+                got = obj.apply(x)
+                if not close(got, want, 1e-8):
+                    bad = (k, d, maxerr(got, want), max(1.0, float(np.max(np.abs(want)))))
+                    break
+            if bad is not None:
+                k, d, err, sc = bad
+                replay = {"initial": [dd for _, _, dd in pool[:len(base)]], "steps": log, "wrong_member": k, "member": d,
+                          "error": err, "points": x.tolist()}
+                if k == len(pool) - 1:
+                    attribute(ck, e, devsum, err, sc * sc, "pool/composition-differs-from-sequential",
+                              "step %d: %s does not map points as the sequential application (error %g)" % (st, d, err), replay)
+                else:
+                    attribute(ck, e, 0.0, err, sc, "pool/compose-changes-operand-or-earlier-result",
+                              "after step %d (%s), the earlier transform pool[%d] = %s no longer maps points as before (error %g)"
+                              % (st, log[-1], k, d, err), replay)
+                break
+    ck.section("pool", sequences=nseq, compose_steps=total)
+
+
 def sec_generic(ck, e, rng):
     from nipy.algorithms.registration.transform import Transform
     from nipy.algorithms.registration.polyaffine import PolyAffine
@@ -863,7 +1121,9 @@ def run(ck):
     sec_from44(ck, e, T, ck.rng("from44"))
     sec_param(ck, e, T, ck.rng("param"))
     sec_chain(ck, e, T, ck.rng("chain"))
+    sec_stateful(ck, e, T, ck.rng("stateful"))
     sec_generic(ck, e, ck.rng("generic"))
+    sec_pool(ck, e, ck.rng("pool"))
     ck.trust += [
         "oracle contracts (C08): spl.svd returns U, s, V with U diag(s) V = A (hypothesis of svd_sign_fix_reconstructs; the recorded "
         "values are threaded into the model); spl.inv returns a two-sided inverse (hypothesis of inv_apply); "
